@@ -32,6 +32,9 @@ pub struct Props {
     pub c20: bool,
     /// check C10 for every system of the state, not only the last one added
     pub c10_all: bool,
+    /// a top-level call that was (rightly) rejected is treated as not having happened and the sequence
+    /// goes on (C18, C20)
+    pub continue_after_reject: bool,
 }
 
 impl Props {
@@ -47,8 +50,14 @@ impl Props {
                 "C10" => p.c10 = true,
                 "C12" => p.c12 = true,
                 "C13" => p.c13 = true,
-                "C18" => p.c18 = true,
-                "C20" => p.c20 = true,
+                "C18" => {
+                    p.c18 = true;
+                    p.continue_after_reject = true;
+                }
+                "C20" => {
+                    p.c20 = true;
+                    p.continue_after_reject = true;
+                }
                 _ => {}
             }
         }
@@ -89,7 +98,7 @@ fn call_ok(obs: &Obs, path: &[usize]) -> Option<bool> {
     obs.calls.iter().find(|c| c.path == path).map(|c| c.panic.is_none())
 }
 
-fn ill_formed(ops: &[Op], idx: usize) -> Option<(&'static str, String)> {
+pub fn ill_formed(ops: &[Op], idx: usize) -> Option<(&'static str, String)> {
     // names registered by successful earlier calls of this sequence
     let mut names: BTreeSet<&str> = BTreeSet::new();
     for (i, op) in ops.iter().enumerate() {
@@ -146,6 +155,12 @@ fn check_c18_seq(ops: &[Op], path: &mut Vec<usize>, obs: &Obs, out: &mut Vec<Vio
     }
 }
 
+/// Every failed call is a top-level call that is ill-formed (so its rejection is right).
+pub fn only_expected_rejections(ops: &[Op], obs: &Obs) -> bool {
+    obs.build_panic.is_none()
+        && obs.calls.iter().all(|c| c.panic.is_none() || (c.path.len() == 1 && matches!(ops.get(c.path[0]), Some(Op::Sys(_))) && ill_formed(ops, c.path[0]).is_some()))
+}
+
 /// All builder calls of the plan succeeded?
 pub fn all_calls_ok(obs: &Obs) -> bool {
     obs.calls.iter().all(|c| c.panic.is_none())
@@ -162,12 +177,18 @@ struct SeqView<'a> {
 fn seq_views<'a>(ops: &'a [Op], info: &PlanInfo, members: &[usize], layout: &'a Layout, depth: usize, out: &mut Vec<SeqView<'a>>) {
     let mut ids = Vec::new();
     let mut k = 0;
-    for op in ops {
+    for (i, op) in ops.iter().enumerate() {
         match op {
             Op::Barrier => ids.push(None),
             _ => {
-                ids.push(Some(members[k]));
-                k += 1;
+                // a rejected top-level registration has no member
+                let is_rejected = depth == 0 && info.rejected.iter().any(|r| info.nodes[*r].op_index == i);
+                if is_rejected {
+                    ids.push(None);
+                } else {
+                    ids.push(Some(members[k]));
+                    k += 1;
+                }
             }
         }
     }
@@ -262,7 +283,11 @@ fn check_seq(p: &Props, sv: &SeqView, info: &PlanInfo, last_only: bool, out: &mu
         match op {
             Op::Barrier => barrier_at.push(i),
             Op::Sys(_) | Op::Batch(_) => {
-                let id = sv.ids[i].unwrap();
+                // a rejected registration has no member
+                let id = match sv.ids[i] {
+                    Some(id) => id,
+                    None => continue,
+                };
                 let n = &info.nodes[id];
                 if !n.name.is_empty() {
                     names.entry(n.name.as_str()).or_insert(id);
@@ -483,7 +508,21 @@ pub fn check_state(p: &Props, ops: &[Op], info: &PlanInfo, obs: &Obs, last_only:
     if p.c20 {
         check_c20(ops, info, obs, &mut out);
     }
-    if !all_calls_ok(obs) || obs.build_panic.is_some() {
+    let mut info_local;
+    let mut info = info;
+    if !all_calls_ok(obs) {
+        if !(p.continue_after_reject && only_expected_rejections(ops, obs)) {
+            return out;
+        }
+        // the rejected registrations never happened: drop them from the membership lists
+        let rejected: Vec<usize> = obs.calls.iter().filter(|c| c.panic.is_some()).map(|c| c.path[0]).collect();
+        info_local = info.clone();
+        let gone: Vec<usize> = info_local.nodes.iter().filter(|n| n.parent.is_none() && rejected.contains(&n.op_index)).map(|n| n.id).collect();
+        info_local.top.retain(|id| !gone.contains(id));
+        info_local.rejected = gone;
+        info = &info_local;
+    }
+    if obs.build_panic.is_some() {
         return out;
     }
     if let Some(e) = &obs.ident_error {
